@@ -326,4 +326,16 @@ example : decodeMessage none (Comps.toParams (MComps.cs ex3)) [0x22, 0x05, 0xAA,
       Comp.ofObjValue, Obj.toParam])
     ⟨rfl, rfl, trivial⟩ rfl _ (by decide +kernel) (Except.eq_ok_of_toOption (by decide +kernel))
 
+/-- `C01_roundtrip_nested2` subsumes `C01_roundtrip_nested_consumes`: every `Described` parameter is `Described2`
+    (`Described.to2`), for requests and for responses to any request -/
+theorem C01_roundtrip_nested2_of_described (gs : List Comp) (hd : ∀ g ∈ gs, Described g) (hneed : Comps.need gs + 2 ≤ modelFuel)
+    (hn : Comps.namesOk gs) (hlast : Comps.eopLast gs) (trig : Option Bytes) (pdu : Bytes)
+    (hend : Comps.anyEop gs = true → Comps.cur gs 0 0 = pdu.length)
+    (henc : encodeMessage none (Comps.toParams gs) (.dict (Comps.values gs)) trig true = .ok (pdu, 0)) :
+    decodeMessage none (Comps.toParams gs) pdu true = .ok (.dict (Comps.pair gs).val, Comps.cur gs 0 0) := by
+  have h := C01_roundtrip_nested2 (MComps.ofComps gs) trig
+    (fun m hm => by obtain ⟨g, hg, rfl⟩ := MComps.mem_ofComps hm; exact DescribedTop.nested _ _ (hd g hg).to2)
+  rw [MComps.cs_ofComps] at h
+  exact h hneed hn hlast (MComps.midNotLast_ofComps gs) pdu hend henc
+
 end OdxVerif.Codec
